@@ -5,7 +5,7 @@
 From Coq Require Import Reals List Lra.
 From AhrsLib Require Import Base Rot.
 From AhrsGen Require Import C20gen_R.
-From AhrsProps Require Import C20_spec C20_acc C20_mag C20_magnorm C20_gyro_rad C20_gyro_deg C20_repr.
+From AhrsProps Require Import C20_spec C20_acc C20_mag C20_magnorm C20_gyro_rad C20_gyro_deg C20_repr C20_rand C20_firstorder C20_euler.
 Import ListNotations.
 Open Scope R_scope.
 
@@ -76,16 +76,56 @@ Theorem C20_bias_reported_is_bias_applied : forall q0w q0x q0y q0z q1w q1x q1y q
 Proof. intros. split; [apply gyro_rad_spec|apply gyro_deg_spec]; assumption. Qed.
 Print Assumptions C20_bias_reported_is_bias_applied.
 
-(* rotations, quaternions and angular positions of a given trajectory are images of the same rows *)
+(* the noise-free, bias-corrected gyroscope is exactly what QuaternionArray.angular_velocities computes between consecutive
+   attitudes, rate dt p q = (2/dt) vec(p* (x) q)  (w_0 = 0); for a step that turns by th about a unit body axis n this is
+   (2/dt) sin(th/2) n, and it falls short of the true rate (th/dt) n by at most th^3/(24 dt) per unit of |n_k| *)
+Theorem C20_gyro_first_order :
+  (forall q0w q0x q0y q0z q1w q1x q1y q1z q2w q2x q2y q2z,
+   unit4 q0w q0x q0y q0z -> unit4 q1w q1x q1y q1z -> unit4 q2w q2x q2y q2z ->
+   forall sm m0 m1 m2 u0 u1 u2 ng00 ng01 ng02 ng10 ng11 ng12 ng20 ng21 ng22,
+   let q0 := [q0w;q0x;q0y;q0z] in let q1 := [q1w;q1x;q1y;q1z] in let q2 := [q2w;q2x;q2y;q2z] in
+   let w1 := rate dt100 q0 q1 in let w2 := rate dt100 q1 q2 in
+   let br := bias_rad q0 q1 q2 u0 u1 u2 in let bd := bias_deg q0 q1 q2 u0 u1 u2 in
+   C20_gyro_rad_R q0w q0x q0y q0z q1w q1x q1y q1z q2w q2x q2y q2z 0 sm m0 m1 m2 u0 u1 u2 ng00 ng01 ng02 ng10 ng11 ng12 ng20 ng21 ng22
+   = Val ((add3 [0;0;0] br ++ add3 w1 br ++ add3 w2 br) ++ br ++ ([0;0;0] ++ w1 ++ w2)) /\
+   C20_gyro_deg_R q0w q0x q0y q0z q1w q1x q1y q1z q2w q2x q2y q2z 0 sm m0 m1 m2 u0 u1 u2 ng00 ng01 ng02 ng10 ng11 ng12 ng20 ng21 ng22
+   = Val ((add3 [0;0;0] bd ++ add3 (scale3 r2d w1) bd ++ add3 (scale3 r2d w2) bd) ++ bd ++ ([0;0;0] ++ w1 ++ w2))) /\
+  (forall w x y z n0 n1 n2 th dt, unit4 w x y z ->
+   rate dt [w;x;y;z] (step [w;x;y;z] n0 n1 n2 th) = scale3 (2 / dt * sin (th / 2)) [n0; n1; n2]) /\
+  (forall th, 0 <= th -> 0 <= th - 2 * sin (th / 2) <= th * th * th / 24).
+Proof.
+  split; [|split].
+  - intros. split; [apply gyro_rad_zero|apply gyro_deg_zero]; assumption.
+  - intros. apply rate_of_step; assumption.
+  - exact rate_first_order.
+Qed.
+Print Assumptions C20_gyro_first_order.
+
+(* rotations, quaternions and angular positions of a given trajectory are images of the same rows: the matrices are the
+   textbook matrices of the quaternions (proper rotations) and, away from gimbal lock, equal Rz(yaw) Ry(pitch) Rx(roll) of the
+   reported angular positions *)
 Theorem C20_representations_agree : forall q0w q0x q0y q0z q1w q1x q1y q1z q2w q2x q2y q2z,
   unit4 q0w q0x q0y q0z -> unit4 q1w q1x q1y q1z -> unit4 q2w q2x q2y q2z ->
   forall m0 m1 m2 sm,
   let q0 := [q0w;q0x;q0y;q0z] in let q1 := [q1w;q1x;q1y;q1z] in let q2 := [q2w;q2x;q2y;q2z] in
   C20_repr_R q0w q0x q0y q0z q1w q1x q1y q1z q2w q2x q2y q2z m0 m1 m2 sm
   = Val ((q0 ++ q1 ++ q2) ++ (Rspec q0 ++ Rspec q1 ++ Rspec q2) ++ (rpy_of q0 ++ rpy_of q1 ++ rpy_of q2))
-  /\ SO3 (Rspec q0) /\ SO3 (Rspec q1) /\ SO3 (Rspec q2).
-Proof. intros. split; [apply repr_spec; assumption|]. repeat split; apply Rspec_SO3; assumption. Qed.
+  /\ SO3 (Rspec q0) /\ SO3 (Rspec q1) /\ SO3 (Rspec q2)
+  /\ (forall w x y z, unit4 w x y z -> -1 < 2 * (w*y - z*x) < 1 ->
+      Rspec [w;x;y;z] = Rzyx (e (rpy_of [w;x;y;z]) 0) (e (rpy_of [w;x;y;z]) 1) (e (rpy_of [w;x;y;z]) 2)).
+Proof.
+  intros. split; [apply repr_spec; assumption|]. repeat split; try (apply Rspec_SO3; assumption).
+  intros. apply rpy_of_is_euler; assumption.
+Qed.
 Print Assumptions C20_representations_agree.
+
+(* random route: QuaternionArray(rpy=angles), the constructor Sensors uses on its generated angular positions, returns
+   the unit quaternion qZ(yaw) qY(pitch) qX(roll) and to_DCM() gives its matrix, which is Rz(yaw) Ry(pitch) Rx(roll) *)
+Theorem C20_random_route_representations : forall ro pi ya,
+  C20_from_rpy_R ro pi ya = Val (q_of_rpy ro pi ya ++ Rspec (q_of_rpy ro pi ya)) /\
+  qnorm2 (q_of_rpy ro pi ya) = 1 /\ Rspec (q_of_rpy ro pi ya) = Rzyx ro pi ya.
+Proof. intros. split; [apply from_rpy_spec|]. split; [apply q_of_rpy_unit|apply Rspec_q_of_rpy]. Qed.
+Print Assumptions C20_random_route_representations.
 
 (* the hypotheses are inhabited by a non-stationary trajectory: identity, then (3/5, 4/5, 0, 0), then a half turn about x;
    its ground-truth rate between the first two rows is (2/dt) * 4/5 about x *)
